@@ -12,7 +12,7 @@
 (* ("data": evaluated content differs, "flags": only merge flags differ,    *)
 (* "err": error class / success differs) and printed with the trace id.     *)
 (***************************************************************************)
-EXTENDS AyBuild, Props_C02, Props_C03, Props_C04, IOUtils, TLCExt
+EXTENDS AyBuild, Props_C02, Props_C03, Props_C04, Props_C05, Props_C15, IOUtils, TLCExt
 
 CONSTANT Prop   \* which property's declarative formula is evaluated on the logged outcomes
 
@@ -81,6 +81,43 @@ TSpec == TInit /\ [][TNext]_tvars
 HistDocs  == [i \in 1..Len(hist) |-> hist[i].sd]
 HistSafes == [i \in 1..Len(hist) |-> hist[i].safe]
 
+\* Related histories (relational properties C05, C15): the harness drove the
+\* library along transformed copies of the same history and logged their outcomes
+Rel == IF "rel" \in DOMAIN Traces[tid] THEN Traces[tid].rel ELSE <<>>
+RelOuts(r) == [j \in 1..Len(r.outs) |-> NodeOfJ(r.outs[j])]
+RelDocs(r) == [j \in 1..Len(r.docs) |-> SDofJ(r.docs[j])]
+\* what the specification computes for a related history (as far as the first error)
+UpToError(s) == IF \E j \in 1..Len(s) : IsErr(s[j])
+                THEN SubSeq(s, 1, CHOOSE j \in 1..Len(s) : IsErr(s[j]) /\ \A i \in 1..(j-1) : ~IsErr(s[i]))
+                ELSE s
+ModelRelOuts(r) == LET ds == RelDocs(r)
+                   IN UpToError([n \in 1..Len(ds) |-> FoldDocs([i \in 1..n |-> Parse(ds[i], TRUE)])])
+
+LastOf(s) == s[Len(s)]
+
+C05_RelOk(r, base, RO(_)) ==
+    CASE r.name = "wrap"    -> C05_WrapHolds(r.keys, base, RO(r))
+      [] r.name = "sibling" -> C05_SiblingHolds(r.path, r.keys[1], base, RO(r))
+      [] OTHER -> TRUE
+C05_TraceHolds(base, RO(_)) ==
+    /\ \A x \in DOMAIN Rel : C05_RelOk(Rel[x], base, RO)
+    /\ C05_Frame(HistDocs, base)
+
+C15_RelOk(r, base, RO(_)) ==
+        LET ro == RO(r)
+        IN /\ Len(ro) >= 1 /\ Len(base) >= 1
+           /\ CASE r.name \in {"repeat", "perm"} -> C15_SameUpToKeyOrder(LastOf(base), LastOf(ro))
+                 [] r.name \in {"empty", "mark"}  -> C15_SameOut(LastOf(base), LastOf(ro))
+                 [] r.name = "same" -> Len(ro) = Len(base) /\ \A j \in 1..Len(base) : C15_SameOut(base[j], ro[j])
+                 [] OTHER -> TRUE
+C15_TraceHolds(base, RO(_)) == \A x \in DOMAIN Rel : C15_RelOk(Rel[x], base, RO)
+
+\* which related histories fail (diagnostics)
+FailingRels(base, RO(_)) ==
+    {x \in DOMAIN Rel : CASE Prop = "C05" -> ~C05_RelOk(Rel[x], base, RO)
+                           [] Prop = "C15" -> ~C15_RelOk(Rel[x], base, RO)
+                           [] OTHER -> FALSE}
+
 \* the property's declarative formula evaluated on what the LIBRARY produced
 \* ("holds" / "violated"), or "outside" when the history is not in the
 \* property's stated domain
@@ -90,6 +127,9 @@ PropVerdict ==
                          ELSE IF C03_Holds(HistDocs, louts) THEN "holds" ELSE "violated"
       [] Prop = "C04" -> IF ~C04_Judged(HistDocs, louts) THEN "outside"
                          ELSE IF C04_Holds(HistDocs, louts) THEN "holds" ELSE "violated"
+      [] Prop = "C05" -> IF C05_TraceHolds(louts, RelOuts) THEN "holds" ELSE "violated"
+      [] Prop = "C15" -> IF ~C15_InDomain(HistDocs) THEN "outside"
+                         ELSE IF C15_TraceHolds(louts, RelOuts) THEN "holds" ELSE "violated"
       [] OTHER -> "none"
 
 \* ... and on what the SPECIFICATION computed for the same history
@@ -97,6 +137,8 @@ ModelVerdict ==
     CASE Prop = "C02" -> IF C02_Holds(HistDocs, accs) THEN "holds" ELSE "violated"
       [] Prop = "C03" -> IF C03_Holds(HistDocs, accs) THEN "holds" ELSE "violated"
       [] Prop = "C04" -> IF C04_Holds(HistDocs, accs) THEN "holds" ELSE "violated"
+      [] Prop = "C05" -> IF C05_TraceHolds(accs, ModelRelOuts) THEN "holds" ELSE "violated"
+      [] Prop = "C15" -> IF ~C15_InDomain(HistDocs) \/ C15_TraceHolds(accs, ModelRelOuts) THEN "holds" ELSE "violated"
       [] OTHER -> "none"
 
 \* one line per trace, printed at the state where the whole trace is consumed.
@@ -106,6 +148,8 @@ Report ==
     (l = Len(Ev) + 1) =>
         PrintT(<<"TRACE", Traces[tid].tid, verdict, PropVerdict, ModelVerdict,
                  IF verdict = "ok" /\ PropVerdict # "violated" /\ ModelVerdict # "violated" THEN ""
-                 ELSE ToJson([model |-> [j \in 1..Len(accs) |-> IF IsErr(accs[j]) THEN accs[j] ELSE accs[j]], k |-> k])>>)
+                 ELSE ToJson([model |-> accs, k |-> k,
+                              failing_on_library |-> FailingRels(louts, RelOuts),
+                              failing_on_model |-> FailingRels(accs, ModelRelOuts)])>>)
 
 =============================================================================
